@@ -202,4 +202,120 @@ theorem project_idem (s : Schema σ) (d : J σ) : project s (project s d) = proj
   | str x => simp [project]
   | arr a => simp [project]
 
+/-! ## nested filters see the same values in the stored object -/
+
+theorem find_leaf_safe : ∀ (props : NProps σ) (x : σ) (l : Leaf σ),
+    propsSafe props = true → props.find x = some (.leaf l) → l.safe = true
+  | .nil, _, _, _, h => by simp [NProps.find] at h
+  | .cons p t, x, l, hs, h => by
+    simp only [NProps.find] at h
+    by_cases hp : p.name = x
+    · simp only [hp, if_true] at h
+      cases p with
+      | leaf l' =>
+        simp at h; subst h
+        simp only [propsSafe, Bool.and_eq_true] at hs
+        exact hs.1
+      | object n => simp at h
+    · simp only [hp, if_false] at h
+      have hs' : propsSafe t = true := by
+        cases p with
+        | leaf l' => simp only [propsSafe, Bool.and_eq_true] at hs; exact hs.2
+        | object n => simp only [propsSafe, Bool.and_eq_true] at hs; exact hs.2
+      exact find_leaf_safe t x l hs' h
+
+theorem strsOf_null_of_isNull {v : J σ} (h : v.isNull = true) : strsOf v = [] := by
+  cases v <;> simp_all [J.isNull, strsOf]
+
+/-- the strings recorded for a *stored* leaf are the same in the stored object -/
+theorem fieldStrs_storedObj (props : NProps σ) (x : σ) (l : Leaf σ)
+    (hx : props.find x = some (.leaf l)) (hst : l.stored = true) :
+    ∀ (kv : JO σ), fieldStrs (storedObj props kv) x = fieldStrs kv x
+  | .nil => by simp [storedObj]
+  | .cons k v t => by
+    have ih := fieldStrs_storedObj props x l hx hst t
+    simp only [storedObj, fieldStrs]
+    cases hf : props.find k with
+    | none =>
+      have hne : k ≠ x := by
+        intro e; rw [e, hx] at hf; simp at hf
+      simp only [hne, if_false, List.nil_append]; exact ih
+    | some p =>
+      cases p with
+      | leaf l' =>
+        simp only
+        by_cases hc : (!v.isNull && l'.stored) = true
+        · simp only [hc, if_true, fieldStrs, ih]
+        · simp only [hc, if_false]
+          by_cases hk : k = x
+          · have : l' = l := by
+              rw [hk, hx] at hf; simp at hf; exact hf.symm
+            subst this
+            have hn : v.isNull = true := by
+              simp only [hst, Bool.and_true, Bool.not_eq_true', Bool.not_eq_false] at hc
+              cases hv : v.isNull <;> simp_all
+            simp only [hk, if_true, strsOf_null_of_isNull hn, List.nil_append]; exact ih
+          · simp only [hk, if_false, List.nil_append]; exact ih
+      | object child =>
+        have hne : k ≠ x := by
+          intro e; rw [e, hx] at hf; simp at hf
+        simp only [hne, if_false, List.nil_append]
+        cases hnull : v.isNull with
+        | true => simp only [if_true]; exact ih
+        | false =>
+          simp only [Bool.false_eq_true, if_false]
+          cases hs : storedNested child v with
+          | none => simp only; exact ih
+          | some c => simp only [fieldStrs, hne, if_false, List.nil_append]; exact ih
+
+theorem evalObj_storedObj (props : NProps σ) (hsafe : propsSafe props = true) (kv : JO σ) :
+    ∀ (f : NF σ), f.evalObj props (storedObj props kv) = f.evalObj props kv
+  | .kwEq x v => by
+    simp only [NF.evalObj]
+    cases hfk : props.fastKeyword x with
+    | false => simp
+    | true =>
+      simp only [Bool.true_and]
+      unfold NProps.fastKeyword at hfk
+      cases hf : props.find x with
+      | none => simp [hf] at hfk
+      | some p =>
+        cases p with
+        | object n => simp [hf] at hfk
+        | leaf l =>
+          simp only [hf, Bool.and_eq_true] at hfk
+          have hls := find_leaf_safe props x l hsafe hf
+          have hst : l.stored = true := by
+            unfold Leaf.safe at hls
+            have hk : l.kind = .keyword := by
+              have := hfk.1
+              cases hkk : l.kind <;> simp_all
+            simp only [hk, hfk.2, Bool.or_true, Bool.not_true, Bool.false_or] at hls
+            exact hls
+          rw [fieldStrs_storedObj props x l hf hst kv]
+  | .not f => by simp only [NF.evalObj, evalObj_storedObj props hsafe kv f]
+  | .and f g => by
+    simp only [NF.evalObj, evalObj_storedObj props hsafe kv f, evalObj_storedObj props hsafe kv g]
+  | .or f g => by
+    simp only [NF.evalObj, evalObj_storedObj props hsafe kv f, evalObj_storedObj props hsafe kv g]
+
+theorem anyJL_storedList (n : Nested σ) (hsafe : propsSafe n.props = true) (f : NF σ) :
+    ∀ (a : JL σ), keepsAll n.props a = true →
+      anyJL (elemPasses n.props f) (storedList n a) = anyJL (elemPasses n.props f) a
+  | .nil, _ => by simp [storedList]
+  | .cons h t, hk => by
+    cases h with
+    | obj kv =>
+      simp only [keepsAll, Bool.and_eq_true, Bool.not_eq_true'] at hk
+      have hs : storedNested n (.obj kv) = some (.obj (storedObj n.props kv)) := by
+        simp only [storedNested, hk.1]
+        simp
+      simp only [storedList, hs, anyJL, elemPasses, evalObj_storedObj n.props hsafe kv f,
+        anyJL_storedList n hsafe f t hk.2]
+    | null => simp [keepsAll] at hk
+    | bool b => simp [keepsAll] at hk
+    | num m e => simp [keepsAll] at hk
+    | str x => simp [keepsAll] at hk
+    | arr a => simp [keepsAll] at hk
+
 end SL.Doc
